@@ -164,6 +164,7 @@ fn main() {
     let n_min = arg_u64(&a, "nmin", 5) as usize;
     let n_max = arg_u64(&a, "nmax", 12) as usize;
     let cap_arg = arg_u64(&a, "cap", 0);
+    let sweep_regime = arg_u64(&a, "sweep", 0) == 1;
     vh::util::count_panics(true);
 
     let rt = tokio::runtime::Builder::new_current_thread().enable_all().build().unwrap();
@@ -182,7 +183,17 @@ fn main() {
                 GenCfg { n_min, n_max, m: 3, externals: !crash, cyclic: false, groups: true, fw: nofw == 0 },
             );
             let mut r = StdRng::seed_from_u64(s ^ 0xABCD_EF01);
-            let actions = gen_history(&mut r, &prog, steps, !crash);
+            // sweep regime: a witness per firewall is queried first after every commit, so the
+            // call sites of the known findings are never reached (see hist.rs)
+            let (prog, actions) = if sweep_regime {
+                let mut prog = prog;
+                let ws = vh::hist::add_witnesses(&mut prog);
+                let acts = vh::hist::sweep(gen_history(&mut r, &prog, steps, !crash), &ws);
+                (prog, acts)
+            } else {
+                let acts = gen_history(&mut r, &prog, steps, !crash);
+                (prog, acts)
+            };
             let cap = if cap_arg > 0 { cap_arg } else { [1u64, 2, 8, 64][(s % 4) as usize] };
             cases.push(Case {
                 prog,
